@@ -74,6 +74,11 @@ def fingerprint_url(url, unsplit=True, strip_suffix=False, platform_aware=False)
     )
     _, netloc, path, query, fragment = splitted
 
+    # NOTE: unquoting can reveal uppercase letters (%4A is "J")
+    path = path.lower()
+    query = query.lower()
+    fragment = fragment.lower()
+
     user, password, hostname, port = (
         splitted.username,
         splitted.password,
